@@ -1,4 +1,4 @@
-"""C06: integer + - * negation ++/-- are lane-wise two's-complement."""
+"""C06: popcount, countl/countr zero/one, countl_sign, bit_width, bit_floor, bit_ceil, has_single_bit, byteswap match <bit>."""
 import common
 import runner
 
@@ -28,8 +28,7 @@ def run(tier, a=None):
     runner.run_families(res, scal, ["bitcount"], lambda vt, cfg: vt.n == 1 and (tf0 is None or tf0(vt, cfg)),
                         override="judge_ub", keytag="ub", ubmode=True)
     res.trusted = ["clang 14 front end and -O2 pipeline preserve the meaning of UB-free executions",
-                   "LLVM LangRef: add/sub/mul without nsw/nuw are arithmetic modulo 2^n per lane"]
-    return common.finish(res, explanation="every integer vector type x configuration x "
-                         "{+,-,*,unary -,++,--, compound forms}: optimised IR summarised into a "
-                         "closed form and compared with add/sub/mul modulo 2^bits on the same lane",
+                   "LLVM LangRef semantics of the IR instructions; Intel SDM semantics of the x86 intrinsics as modelled in spec/isa.py",
+                   "the term normaliser, the exact IEEE evaluator (lib/fpeval.py) and the abstract interpreter (lib/absint.py, self-tested against the concrete evaluator)"]
+    return common.finish(res, explanation='every integer vector type x configuration x {popcount, countl_zero, countl_one, countr_zero, countr_one, countl_sign, bit_width, bit_floor, bit_ceil, has_single_bit, byteswap}: optimised IR summarised into a closed form and compared with ctpop/ctlz/cttz-based definitions on the same lane: identical normal form, truth table (8/16-bit lanes), or abstract interpretation (known bits x interval) under a complete case split on the position of the highest / lowest set or clear bit (32/64-bit lanes); a zero-undef count applied to zero is a refutation',
                          write_floor=getattr(a, "write_floor", False))
